@@ -105,12 +105,17 @@ class Ctx:
         if value > self.maxdev.get(name, -1.0):
             self.maxdev[name] = value
 
-    def violation(self, kind: str, what: str, case, **keys):
+    def violation(self, kind: str, what: str, case, /, **keys):
         """A decided case disagrees with its oracle.
 
         ``kind`` is the monitor's name for the disagreement; ``keys`` carry the
-        mechanism facts that known-finding predicates look at.
+        mechanism facts that known-finding predicates look at.  The three leading
+        parameters are positional-only: a mechanism key that happens to be called
+        ``kind`` / ``what`` / ``case`` must end up among the keys, not raise a TypeError
+        at the very moment a violation is reported (that turned a seeded change into
+        an "oracle error" once).
         """
+        keys = {(k + '_' if k in ('kind', 'what', 'case', 'group') else k): v for k, v in keys.items()}
         self.n_violations += 1
         self.viol_kinds[kind] += 1
         jkeys = jsonable(keys)
